@@ -1,8 +1,10 @@
 ------------------------------ MODULE Producer ------------------------------
 (***************************************************************************)
-(* The leader's production of ONE block (src/consensus/block_producer.rs)   *)
-(* as pure operators over a record: one operator per input of the task      *)
-(*   OnStart(p, variant)   OnTx(p, len)   OnTick(p)   OnParentReady(p, b)   *)
+(* The leader's production of the blocks of ONE leader window              *)
+(* (src/consensus/block_producer.rs, block_production_loop) as pure         *)
+(* operators over a record: one operator per input of the task              *)
+(*   OnStart(p, cond)   OnTx(p, len)   OnTick(p)   OnParentReady(p, b)      *)
+(*   OnFinalize(p)                                                          *)
 (* each returning [p, out]: the new state and what the producer did in      *)
 (* reaction (slices handed to shredder + disseminator + blockstore, block    *)
 (* completion with the parent given to Pool::add_block, panic of the task). *)
@@ -26,6 +28,22 @@
 (* the parent on that slice.  CodeAsIs = TRUE transcribes the code before   *)
 (* that repair (no reservation).                                            *)
 (*                                                                         *)
+(* WINDOW: the first block of the window is produced in the variant that    *)
+(* wait_for_first_slot chose from the situation `cond` it found             *)
+(* (StartVariant below), the remaining W-1 blocks with                      *)
+(* produce_block_parent_ready(slot, id of the block just produced).  A      *)
+(* window whose first slot is not above the pool's finalized slot is        *)
+(* SKIPPED (nothing is produced for it) and the leader goes on to its next  *)
+(* window ("w4", which the same finalization made ready with parent "F").   *)
+(* INTENDED RULE 2: ParentReady held -> Ready; else later finalization ->   *)
+(* Skip; else block of the previous slot -> optimistic production.          *)
+(* "blockfirst" \in CodeAsIs transcribes the code, which looks at the       *)
+(* previous block BEFORE the finalization: it then produces optimistically  *)
+(* for a decided window; if the pool has pruned that window, ParentReady    *)
+(* can never arrive and the next finalization drops the oneshot sender ->   *)
+(* .expect("ParentReady sender should not be dropped") panics.              *)
+(* "noreserve" \in CodeAsIs: the code before the repair 92ea5f1.            *)
+(*                                                                         *)
 (* Time is counted in ticks.  Frozen = TRUE models the clock of the         *)
 (* conformance harness: tokio's clock is virtual but the code measures      *)
 (* `start_time.elapsed()` with std::time::Instant, which stands still:      *)
@@ -42,10 +60,13 @@ CONSTANTS
   DeltaBlock,   \* delta_block in ticks
   DeltaFirst,   \* delta_first_slice in ticks (<= DeltaBlock)
   MaxIdx,       \* SliceIndex::is_max  (the code: MAX_SLICES_PER_BLOCK - 1 = 1023)
-  CodeAsIs,     \* TRUE: the code before the repair (no room reserved for the parent switch)
+  W,            \* blocks per leader window (SLOTS_PER_WINDOW = 4; 1: only the first block is modelled)
+  CodeAsIs,     \* set of transcriptions of unrepaired code: "noreserve" (no room reserved for the parent
+                \* switch, repaired by 92ea5f1), "blockfirst" (wait_for_first_slot looks at the previous
+                \* slot's block before the later finalization); {} = the intended behaviour
   Frozen        \* TRUE: std Instant stands still (harness clock); FALSE: wall clock
 
-ASSUME DeltaFirst >= 1 /\ DeltaBlock >= DeltaFirst
+ASSUME DeltaFirst >= 1 /\ DeltaBlock >= DeltaFirst /\ W \in 1..4
 
 NoParent == "none"            \* Option<BlockId>::None
 Unseen == "unseen"            \* ParentReady not yet received
@@ -60,16 +81,26 @@ PMin(a, b) == IF a <= b THEN a ELSE b
 PMax(a, b) == IF a >= b THEN a ELSE b
 
 Reserve(variant, par, pr) ==
-  IF ~CodeAsIs /\ variant = "notready" /\ par = NoParent /\ pr = Unseen THEN SwitchRoom ELSE 0
+  IF "noreserve" \notin CodeAsIs /\ variant = "notready" /\ par = NoParent /\ pr = Unseen THEN SwitchRoom ELSE 0
 Space(par, rsv) == MaxData - ParentLen(par) - LenPrefix - rsv
 EncSize(par, buf) == ParentLen(par) + LenPrefix + buf
 TxCost(len) == TxOverhead + len
 
-NoOut == [ship |-> <<>>, done |-> FALSE, eff |-> "", panic |-> "", acc |-> 0]
+\* ship: slices handed out in this step; done: a block was completed and registered (Pool::add_block) with
+\* parent eff; w / k: window and position of the block the step's outputs belong to; skip: the window was skipped
+NoOut == [ship |-> <<>>, done |-> FALSE, eff |-> "", panic |-> "", acc |-> 0, w |-> "", k |-> 0, skip |-> FALSE]
 R(p, out) == [p |-> p, out |-> out]
 
 InitProducer ==
-  [phase |-> "idle",      \* idle | collect | await | done | panic
+  [phase |-> "idle",      \* idle | collect | await | done (all windows of the run produced) | panic
+   cond |-> "",           \* situation in which the loop reached w1 (see OnStart)
+   win |-> "w1",          \* window being produced: "w1" (the one under test), "w4" (the leader's next window)
+   k |-> 0,               \* position of the block being produced in its window
+   blocks |-> <<>>,       \* [w, k, par] per block completed and registered with the pool
+   skipped |-> <<>>,      \* windows for which wait_for_first_slot returned Skip
+   fin |-> FALSE,         \* a slot beyond w1 is finalized (block "F" in the slot before w4: w4 is ready)
+   pruned |-> FALSE,      \* ... and the pool has pruned w1: ParentReady for w1 can never be emitted
+   viol |-> FALSE,        \* a completed block broke a per-block property (see BlockOK)
    variant |-> "",
    opt |-> "",            \* the parent the block is started on
    idx |-> 0, buf |-> 0, cnt |-> 0, par |-> NoParent, rsv |-> 0,
@@ -110,6 +141,63 @@ EffectiveParent(sl) ==
   IF sl = <<>> \/ sl[1].par = NoParent THEN [par |-> NoParent, bad |-> TRUE, sw |-> 0]
   ELSE Effective(sl, 2, sl[1].par, 0)
 
+---------------------------------------------------------------------------
+(* per-block properties, over the record; "done" = the block (in the terminal state: the last block) is complete *)
+Sl(p) == p.shipped
+NoOverflow(p) == \A i \in 1..Len(Sl(p)) : Sl(p)[i].size <= MaxData
+NoPanic(p) == p.phase # "panic"
+IndicesInOrder(p) == \A i \in 1..Len(Sl(p)) : Sl(p)[i].idx = i - 1
+OneLastSlice(p) ==
+  /\ p.phase # "panic" => \A i \in 1..Len(Sl(p)) : Sl(p)[i].last <=> (p.phase = "done" /\ i = Len(Sl(p)))
+  /\ p.phase = "done" => Len(Sl(p)) >= 1
+FirstSliceHasParent(p) == Len(Sl(p)) >= 1 => Sl(p)[1].par # NoParent
+Switches(p) == {i \in 2..Len(Sl(p)) : Sl(p)[i].par # NoParent}
+AtMostOneSwitch(p) ==
+  /\ Cardinality(Switches(p)) <= 1
+  /\ \A i \in Switches(p) : p.variant = "notready" /\ p.pr # Unseen /\ p.pr # p.opt /\ Sl(p)[i].par = p.pr
+EffectiveParentIsReady(p) ==
+  p.phase = "done" => /\ p.pr # Unseen
+                      /\ p.eff = p.pr
+                      /\ EffectiveParent(Sl(p)) = [par |-> p.pr, bad |-> FALSE, sw |-> Cardinality(Switches(p))]
+
+RECURSIVE SumNtx(_, _)
+SumNtx(sl, i) == IF i > Len(sl) THEN 0 ELSE sl[i].ntx + SumNtx(sl, i + 1)
+RECURSIVE SumBytes(_, _)
+SumBytes(sl, i) ==
+  IF i > Len(sl) THEN 0
+  ELSE (sl[i].size - ParentLen(sl[i].par) - LenPrefix - CountPrefix - TxOverhead * sl[i].ntx) + SumBytes(sl, i + 1)
+\* every accepted transaction is in exactly one slice (counts and bytes add up), dropped ones in none
+CurBytes(p) == IF p.phase \in {"collect", "await"} THEN p.buf - CountPrefix - TxOverhead * p.cnt ELSE 0
+TxBalance(p) == p.accepted - SumNtx(Sl(p), 1) - p.cnt
+ByteBalance(p) == p.accBytes - SumBytes(Sl(p), 1) - CurBytes(p)
+TxConserved(p) == p.phase # "panic" => (TxBalance(p) = 0 /\ ByteBalance(p) = 0)
+
+\* names of the blocks of the window being produced, as parents of their successors
+KName(k) == <<"K0", "K1", "K2", "K3">>[k + 1]
+
+\* `for slot in window`: produce_block_parent_ready / _not_ready for block k of window w
+StartBlock(p, w, k, variant, parent) ==
+  StartSlice([p EXCEPT !.win = w, !.k = k, !.variant = variant, !.opt = parent,
+                       !.pr = IF variant = "ready" THEN parent ELSE Unseen,
+                       !.shipped = <<>>, !.accepted = 0, !.accBytes = 0, !.eff = ""],
+             0, IF variant = "ready" THEN DeltaBlock ELSE Inf)
+
+\* what must hold of every completed block (evaluated when its last slice was stored)
+BlockOK(q) ==
+  LET d == [q EXCEPT !.phase = "done", !.cnt = 0, !.buf = 0] IN
+  /\ TxBalance(d) = 0 /\ ByteBalance(d) = 0
+  /\ NoOverflow(d) /\ IndicesInOrder(d) /\ OneLastSlice(d) /\ FirstSliceHasParent(d)
+  /\ AtMostOneSwitch(d) /\ EffectiveParentIsReady(d)
+
+\* the block is complete: Pool::add_block(block, q.eff); the loop goes on with the next slot of the window,
+\* after the window with the leader's next window if that is ready, else it waits (end of the modelled run)
+BlockDone(q) ==
+  LET q1 == [q EXCEPT !.blocks = Append(@, [w |-> q.win, k |-> q.k, par |-> q.eff]),
+                      !.viol = @ \/ ~BlockOK(q)]
+  IN IF q.k + 1 < W THEN StartBlock(q1, q.win, q.k + 1, "ready", KName(q.k))
+     ELSE IF q.win = "w1" /\ q.fin THEN StartBlock(q1, "w4", 0, "ready", "F")
+     ELSE [q1 EXCEPT !.phase = "done", !.buf = 0, !.cnt = 0, !.timer = 0]
+
 \* shred_and_disseminate
 Ship(p, isLast, ndl) ==
   LET size == EncSize(p.par, p.buf)
@@ -117,14 +205,14 @@ Ship(p, isLast, ndl) ==
       q == [p EXCEPT !.shipped = Append(@, s)]      \* handed to shred_and_disseminate
   IN
   IF size > MaxData                                 \* ShredError::TooMuchData -> .expect("shredding of valid slice ...")
-  THEN R([q EXCEPT !.phase = "panic"], [NoOut EXCEPT !.panic = "shred"])
+  THEN R([q EXCEPT !.phase = "panic"], [NoOut EXCEPT !.panic = "shred", !.w = p.win, !.k = p.k])
   ELSE    IF isLast
           THEN LET e == EffectiveParent(q.shipped) IN
                IF e.bad
-               THEN R([q EXCEPT !.phase = "panic"], [NoOut EXCEPT !.ship = <<s>>, !.panic = "reconstruct"])
-               ELSE R([q EXCEPT !.phase = "done", !.eff = e.par, !.buf = 0, !.cnt = 0, !.timer = 0],
-                      [NoOut EXCEPT !.ship = <<s>>, !.done = TRUE, !.eff = e.par])
-          ELSE R(StartSlice(q, p.idx + 1, ndl), [NoOut EXCEPT !.ship = <<s>>])
+               THEN R([q EXCEPT !.phase = "panic"], [NoOut EXCEPT !.ship = <<s>>, !.panic = "reconstruct", !.w = p.win, !.k = p.k])
+               ELSE LET r == BlockDone([q EXCEPT !.eff = e.par])
+                    IN R(r, [NoOut EXCEPT !.ship = <<s>>, !.done = TRUE, !.eff = e.par, !.w = p.win, !.k = p.k])
+          ELSE R(StartSlice(q, p.idx + 1, ndl), [NoOut EXCEPT !.ship = <<s>>, !.w = p.win, !.k = p.k])
 
 \* apply_parent_ready: a no-op when the ready parent is the one the block was started on
 Apply(par, ready, opt) == IF ready = opt THEN par ELSE ready
@@ -138,15 +226,40 @@ Finish(p, left) ==
              ELSE left
       q == IF p.mid THEN [p EXCEPT !.par = Apply(p.par, p.pr, p.opt)] ELSE p
       isLast == (p.idx = MaxIdx) \/ (ndl = 0)
-  IN IF isLast /\ p.variant = "notready" /\ p.pr = Unseen
+  IN IF p.mid /\ p.pr = "dropped"      \* RecvError handed to apply_parent_ready
+     THEN R([p EXCEPT !.phase = "panic"], [NoOut EXCEPT !.panic = "sender", !.w = p.win, !.k = p.k])
+     ELSE
+     IF isLast /\ p.variant = "notready" /\ p.pr = Unseen
      THEN R([q EXCEPT !.phase = "await", !.ndl = ndl, !.timer = 0], NoOut)    \* (&mut parent_ready_receiver).await
      ELSE Ship(q, isLast, ndl)
 
 ---------------------------------------------------------------------------
-OnStart(p, variant, parent) ==
-  R(StartSlice([p EXCEPT !.variant = variant, !.opt = parent,
-                         !.pr = IF variant = "ready" THEN parent ELSE Unseen],
-               0, IF variant = "ready" THEN DeltaBlock ELSE Inf), NoOut)
+(* wait_for_first_slot.  `c` is the situation at the moment the loop reaches window w1 (established before):
+     "pr"       ParentReady(w1, A) held by the pool
+     "blk"      block A of the previous slot in the blockstore (disseminated), no ParentReady yet
+     "fin"      a slot beyond w1 finalized (block F, parent chain unknown: nothing pruned)
+     "finP"     the same with the chain known: the pool has pruned w1
+     "pr+fin"   both; the ParentReady state survives
+     "pr+finP"  ParentReady first, then the pruning finalization: the ParentReady state is gone
+     "blk+fin", "blk+finP"  previous block and finalization both there
+   (nothing at all: the loop polls and waits - not modelled.  ParentReady / previous block / finalization arriving
+    WHILE the loop waits race in tokio::select! with a 1 ms poller: nondeterministic, not modelled.) *)
+HasPr(c) == c \in {"pr", "pr+fin"}
+HasBlk(c) == c \in {"blk", "blk+fin", "blk+finP"}
+HasFin(c) == c \in {"fin", "finP", "pr+fin", "pr+finP", "blk+fin", "blk+finP"}
+IsPruned(c) == c \in {"finP", "pr+finP", "blk+finP"}
+StartVariant(c) ==
+  IF HasPr(c) THEN "ready"                                   \* Either::Left(parent)
+  ELSE IF "blockfirst" \in CodeAsIs
+       THEN (IF HasBlk(c) THEN "notready" ELSE "skip")        \* the poller looks at the blockstore first
+       ELSE (IF HasFin(c) THEN "skip" ELSE "notready")
+OnStart(p, c) ==
+  LET v == StartVariant(c)
+      q == [p EXCEPT !.cond = c, !.fin = HasFin(c), !.pruned = IsPruned(c)]
+  IN IF v = "skip"
+     THEN R(StartBlock([q EXCEPT !.skipped = Append(@, "w1")], "w4", 0, "ready", "F"),
+            [NoOut EXCEPT !.skip = TRUE, !.w = "w1"])
+     ELSE R(StartBlock(q, "w1", 0, v, "A"), NoOut)
 
 \* one transaction arrives on the TransactionNetwork while a slice is being filled
 OnTx(p, len) ==
@@ -166,51 +279,65 @@ OnTick(p) ==
   ELSE LET q == [p EXCEPT !.timer = @ - 1, !.since = IF p.mid THEN @ + 1 ELSE @]
        IN IF q.timer <= 0 THEN Finish([q EXCEPT !.timer = 0], 0) ELSE R(q, NoOut)
 
-\* the oneshot of Pool::wait_for_parent_ready fires with block b
+\* the oneshot of Pool::wait_for_parent_ready fires with block b (the pool cannot emit it for a pruned window)
 OnParentReady(p, b) ==
-  IF p.variant # "notready" \/ p.pr # Unseen THEN R(p, NoOut)
+  IF p.variant # "notready" \/ p.pr # Unseen \/ p.pruned THEN R(p, NoOut)
   ELSE IF p.phase = "collect" THEN R([p EXCEPT !.pr = b, !.mid = TRUE, !.since = 0], NoOut)
   ELSE IF p.phase = "await"
   THEN Ship([p EXCEPT !.pr = b, !.par = Apply(p.par, b, p.opt)], TRUE, p.ndl)
   ELSE R(p, NoOut)
 
+\* the next finalization reaches the pool: it prunes again; the oneshot sender a pruned window was given is dropped
+\* -> the receiver yields RecvError: in the select! the slice is finished first, then (or at once, in the final
+\* await) apply_parent_ready: .expect("ParentReady sender should not be dropped")
+Dropped == "dropped"
+OnFinalize(p) ==
+  IF p.variant = "notready" /\ p.pr = Unseen /\ p.pruned
+  THEN IF p.phase = "collect" THEN R([p EXCEPT !.pr = Dropped, !.mid = TRUE, !.since = 0], NoOut)
+       ELSE IF p.phase = "await"
+       THEN R([p EXCEPT !.pr = Dropped, !.phase = "panic"], [NoOut EXCEPT !.panic = "sender", !.w = p.win, !.k = p.k])
+       ELSE R(p, NoOut)
+  ELSE R(p, NoOut)
+
+\* failing Disseminator::send is best-effort: the slice is stored and production goes on all the same; the
+\* number of shreds that left the node is the only thing that depends on it
+Sent(loss) == IF loss = "all" THEN 0 ELSE IF loss = "odd" THEN 32 ELSE 64
+
 ---------------------------------------------------------------------------
-(* properties, over the record *)
-Sl(p) == p.shipped
-NoOverflow(p) == \A i \in 1..Len(Sl(p)) : Sl(p)[i].size <= MaxData
-NoPanic(p) == p.phase # "panic"
-IndicesInOrder(p) == \A i \in 1..Len(Sl(p)) : Sl(p)[i].idx = i - 1
-OneLastSlice(p) ==
-  /\ p.phase # "panic" => \A i \in 1..Len(Sl(p)) : Sl(p)[i].last <=> (p.phase = "done" /\ i = Len(Sl(p)))
-  /\ p.phase = "done" => Len(Sl(p)) >= 1
-FirstSliceHasParent(p) == Len(Sl(p)) >= 1 => Sl(p)[1].par # NoParent
-Switches(p) == {i \in 2..Len(Sl(p)) : Sl(p)[i].par # NoParent}
-AtMostOneSwitch(p) ==
-  /\ Cardinality(Switches(p)) <= 1
-  /\ \A i \in Switches(p) : p.variant = "notready" /\ p.pr # Unseen /\ p.pr # p.opt /\ Sl(p)[i].par = p.pr
-EffectiveParentIsReady(p) ==
-  p.phase = "done" => /\ p.pr # Unseen
-                      /\ p.eff = p.pr
-                      /\ EffectiveParent(Sl(p)) = [par |-> p.pr, bad |-> FALSE, sw |-> Cardinality(Switches(p))]
-RECURSIVE SumNtx(_, _)
-SumNtx(sl, i) == IF i > Len(sl) THEN 0 ELSE sl[i].ntx + SumNtx(sl, i + 1)
-RECURSIVE SumBytes(_, _)
-SumBytes(sl, i) ==
-  IF i > Len(sl) THEN 0
-  ELSE (sl[i].size - ParentLen(sl[i].par) - LenPrefix - CountPrefix - TxOverhead * sl[i].ntx) + SumBytes(sl, i + 1)
-\* every accepted transaction is in exactly one slice (counts and bytes add up), dropped ones in none
-CurBytes(p) == IF p.phase \in {"collect", "await"} THEN p.buf - CountPrefix - TxOverhead * p.cnt ELSE 0
-TxBalance(p) == p.accepted - SumNtx(Sl(p), 1) - p.cnt
-ByteBalance(p) == p.accBytes - SumBytes(Sl(p), 1) - CurBytes(p)
-TxConserved(p) == p.phase # "panic" => (TxBalance(p) = 0 /\ ByteBalance(p) = 0)
+(* properties, over the record (the per-block ones are defined before Ship) *)
 \* the slice being filled always has room for one more maximal transaction
 RoomForOne(p) == p.phase = "collect" => Space(p.par, p.rsv) - p.buf >= MaxTx + TxOverhead
-\* once ParentReady is known, time alone completes the block
+\* once ParentReady is known, time alone completes the block, the window and the run
 RECURSIVE TicksToDone(_, _)
 TicksToDone(p, fuel) ==
   IF p.phase = "done" THEN 0
   ELSE IF fuel = 0 \/ p.phase = "panic" THEN Inf
   ELSE 1 + TicksToDone(OnTick(p).p, fuel - 1)
 NeverStuck(p) ==
-  (p.phase \in {"collect", "await"} /\ p.pr # Unseen) => TicksToDone(p, 3 * DeltaBlock + 1) < Inf
+  (p.phase \in {"collect", "await"} /\ p.pr # Unseen) => TicksToDone(p, (2 * W + 3) * DeltaBlock + 1) < Inf
+\* the block being produced can still be completed: ParentReady is known or can still be emitted
+CanComplete(p) == ~(p.phase \in {"collect", "await"} /\ p.variant = "notready" /\ p.pr \in {Unseen, "dropped"} /\ p.pruned)
+
+(* the window *)
+Bl(p) == p.blocks
+NoBlockViolation(p) == ~p.viol
+\* blocks of a window are produced in slot order, each on the block just produced
+WindowChain(p) ==
+  \A i \in 1..Len(Bl(p)) :
+    IF Bl(p)[i].k = 0
+    THEN (i = 1 \/ (Bl(p)[i - 1].k = W - 1 /\ Bl(p)[i - 1].w # Bl(p)[i].w))
+    ELSE i > 1 /\ Bl(p)[i - 1].w = Bl(p)[i].w /\ Bl(p)[i - 1].k = Bl(p)[i].k - 1 /\ Bl(p)[i].par = KName(Bl(p)[i].k - 1)
+\* first blocks build on the ready parent; nothing is produced for a skipped window; the block in production is the next one
+WindowShape(p) ==
+  /\ \A i \in 1..Len(Bl(p)) : Bl(p)[i].k = 0 => Bl(p)[i].par \in (IF Bl(p)[i].w = "w4" THEN {"F"} ELSE {"A", "B", "C"})
+  /\ \A i \in 1..Len(Bl(p)) : \A j \in 1..Len(p.skipped) : Bl(p)[i].w # p.skipped[j]
+  /\ p.phase \in {"collect", "await"} =>
+        IF p.k = 0 THEN (Bl(p) = <<>> \/ Bl(p)[Len(Bl(p))].k = W - 1)
+        ELSE Bl(p) # <<>> /\ Bl(p)[Len(Bl(p))].k = p.k - 1 /\ Bl(p)[Len(Bl(p))].w = p.win
+\* the run ends with complete windows: exactly W blocks per window that was not skipped
+WholeWindows(p) ==
+  p.phase = "done" =>
+    /\ Len(Bl(p)) \in {W, 2 * W} /\ Bl(p)[Len(Bl(p))].k = W - 1
+    /\ (p.skipped # <<>> => Len(Bl(p)) = W /\ Bl(p)[1].w = "w4")
+    /\ (p.fin => Bl(p)[Len(Bl(p))].w = "w4")
 =============================================================================
